@@ -713,7 +713,9 @@ def run_dora(ctx, work):
     for r in chosen:
         r.pred = False       # scheduling class: refusal expected
     ctx.count("dora_refusal_expected_generated", len(illegal))
+    t0 = time.time()
     run_dora_requests(ctx, exe, ids, legal, chosen)
+    ctx.count("dora_run_seconds", round(time.time() - t0, 1))
     reqs = legal + chosen
     for r in reqs:
         if r.status == "crash":
@@ -773,7 +775,9 @@ def run(ctx):
     ctx.count("rust_methods_present", present)
     ctx.count("rust_methods_with_template", present - len(uncovered))
     if "rust" in parts:
+        t0 = time.time()
         run_rust(ctx, reqs, work)
+        ctx.count("rust_harness_seconds", round(time.time() - t0, 1))
         covered = judge(ctx, "rust", reqs, work, prepare(ctx, reqs, work))
         out = {}
         for r in reqs:
@@ -788,7 +792,9 @@ def run(ctx):
                         "emitted": ["%08x" % w for w in r.words],
                         "requested": (r.entry.render(r.ops) if r.entry.sym is None else "symbolic:" + r.entry.sym)}, limit=10)
     if "imm" in parts and not ctx.opts.get("only"):
+        t0 = time.time()
         check_imm(ctx)
+        ctx.count("imm_seconds", round(time.time() - t0, 1))
     if "dora" in parts:
         run_dora(ctx, work)
     ctx.required_counters = [c for c in ("rust_words_equal_reference", "rust_refused_illegal") if "rust" in parts]
